@@ -281,6 +281,26 @@ def register(gen, T):
         out.append(f"/-- error when the stack is not empty at the end of the initial file -/\n"
                    f"def unfinishedErr : ChainErr := .{m.group(1)}\n\n")
 
+        # ---------------------------------------------------------------- the other entry point and the hand-over to the parser
+        pf = normws(fn_body(pre, "preprocess_fragment"))
+        fm = re.fullmatch(r'let mut files = \[\(file_name\.0\.as_ref\(\), input\)\]; preprocess\( ?&file_name\.0, source_manager, '
+                          r'&mut files, &\[((?:\("[A-Za-z_0-9]*", "[^"\\\\]*"\),? ?)*)\],? ?\)', pf)
+        if not fm:
+            raise ExtractError("preprocess_fragment is not `preprocess(name, .., [(name, input)], &[<defines>])` any more: " + pf)
+        frag_defs = re.findall(r'\("([A-Za-z_0-9]*)", "([^"]*)"\)', fm.group(1))
+        out.append("/-- `preprocess_fragment(input, name, ..)` = `preprocess(name, .., handler [(name, input)], these defines)` -/\n"
+                   "def fragmentDefines : List (String × String) := " +
+                   T.lean_list(f'("{n}", "{v}")' for n, v in frag_defs) + "\n\n")
+        pt = normws(fn_body(pre, "prepare_tokens"))
+        want_pt = ("let mut source = source .iter() .cloned() .filter_map(|t| { assert!(!matches!(t.0, Token::MacroArg(_))); "
+                   "if t.0.is_whitespace() { None } else { let loc = t.get_location(); Some(LexToken(t.0, loc)) } }) "
+                   ".collect::<Vec<_>>(); source.push(LexToken(Token::Eof, SourceLocation::UNKNOWN)); source")
+        if pt != want_pt:
+            raise ExtractError("prepare_tokens is not `drop is_whitespace() tokens, keep every other token, push Eof` any more: " + pt)
+        out.append("/-- `prepare_tokens`: every token that is not `is_whitespace()` is handed on unchanged, in order, then `Eof`\n"
+                   "    (pinned token for token; `true` = the source has exactly this shape) -/\n"
+                   "def prepareKeepsNonBlank : Bool := true\n\n")
+
         # ---------------------------------------------------------------- shapes the composed model (Model.CondFile) mirrors
         m = re.search(r'const MAX_INCLUDE_DEPTH: u32 = (\d+);', pre)
         inc_arm = normws(arm_of("include"))
